@@ -125,6 +125,31 @@ ASSUME ndJsonSerialize("boundary_quick.ndjson", SetToSeq(BoundaryQuick))
 ASSUME ndJsonSerialize("boundary_all.ndjson", SetToSeq(BoundaryAll))
 ASSUME PrintT(<<"BOUNDARY", Cardinality(BoundaryQuick), Cardinality(BoundaryAll)>>)
 
+(***************************************************************************)
+(* Work-groups sharing a compute unit: every local-memory workload with at *)
+(* least two work-groups on the reduced timing platforms                   *)
+(* (Config.SharedCUPlatforms).  Quick: matrixtranspose (rotating size      *)
+(* class) and one more workload in rotation on the single-CU platform.     *)
+(***************************************************************************)
+SCase(w, p, a, pl) ==
+  [w |-> w, names |-> Names[w], p |-> p,
+   c |-> [mode |-> "timing", gpu |-> IF a = "gcn3" THEN "r9nano" ELSE "mi300a", arch |-> a, n |-> 1, dist |-> "plain", umem |-> 0],
+   knobs |-> IF pl = <<1, 1>> THEN "cus=1,sas=1" ELSE "cus=1,sas=2", shared_cu |-> TRUE, wgs |-> LocalMemWGs(w, p)]
+SharedCUAll ==
+  UNION {{SCase(w, p, a, pl) : p \in {q \in SeqSet(SizeClasses(w)) : LocalMemWGs(w, q) >= 2}, a \in Archs(w), pl \in SharedCUPlatforms}
+         : w \in LocalMemWorkloads}
+SOne == {k \in SharedCUAll : k.knobs = "cus=1,sas=1" /\ k.c.arch = "gcn3"}
+SharedCUQuick ==
+  LET MT == {k \in SOne : k.w = "matrixtranspose"}
+      Rest == {k \in SOne : k.w \in {"nw", "pagerank", "stencil2d", "nbody"}}
+  IN {CHOOSE k \in MT : \A j \in MT : (k.wgs + Rot) % 3 <= (j.wgs + Rot) % 3 \/ k = j}
+     \cup {CHOOSE k \in Rest : \A j \in Rest : ((WIdx(k.w) + Rot) % 5) * 1000 + k.wgs <= ((WIdx(j.w) + Rot) % 5) * 1000 + j.wgs}
+ASSUME \E k \in SharedCUQuick : k.w = "matrixtranspose" /\ k.wgs >= 2 /\ k.c.arch = "gcn3"
+ASSUME SharedCUQuick \subseteq SharedCUAll
+ASSUME ndJsonSerialize("sharedcu_quick.ndjson", SetToSeq(SharedCUQuick))
+ASSUME ndJsonSerialize("sharedcu_all.ndjson", SetToSeq(SharedCUAll))
+ASSUME PrintT(<<"SHAREDCU", Cardinality(SharedCUQuick), Cardinality(SharedCUAll)>>)
+
 Init == x = 0
 Next == UNCHANGED x
 =============================================================================
